@@ -51,9 +51,11 @@ def victim_run(cfg, length):
     return t
 
 
-def traced(fn, k, at_point=None):
+def traced(fn, k, at_point=None, exc=None):
     """Run fn() with a line counter over library frames.  At line event
-    number k (k=None: only count): raise Abort (at_point=None), or call
+    number k (k=None: only count): raise Abort (at_point=None), or raise
+    exc() (an ordinary Exception the interpreter can produce anywhere, e.g.
+    RecursionError / MemoryError, which library code may catch), or call
     at_point() -- a nested, untraced execution that stands for a thread
     switch at that line -- and carry on.  Returns (events_counted, fired)."""
     pkg = _pkg_dir()
@@ -65,6 +67,8 @@ def traced(fn, k, at_point=None):
             if count[0] == k and not fired[0]:
                 count[0] += 1
                 fired[0] = True
+                if exc is not None:
+                    raise exc("injected by the harness")
                 if at_point is None:
                     raise Abort()
                 sys.settrace(None)
@@ -121,6 +125,24 @@ def one(victim, vlen, k, observed_cfgs, olens, mode="abort"):
     if mode == "abort":
         _n, fired = traced(lambda: victim_run(victim, vlen), k)
         return [stream_of(c, n) for c, n in zip(observed_cfgs, olens)], fired
+    if mode.startswith("raise"):
+        # an ordinary exception of the interpreter at that line.  If it
+        # propagates (I.Thread records it) the call is simply aborted; if the
+        # library swallows it and carries on, the victim's own stream must
+        # still be its baseline (a fallback path may not change the schedule)
+        exc = {"raise": RecursionError, "raise_mem": MemoryError}[mode]
+        vt = {}
+
+        def run_victim_r():
+            vt["t"] = victim_run(victim, vlen)
+        _n, fired = traced(run_victim_r, k, exc=exc)
+        outs = [stream_of(c, n) for c, n in zip(observed_cfgs, olens)]
+        t = vt.get("t")
+        if t is not None and t.error is None and fired:
+            outs.append((t.stream, None))      # swallowed
+        else:
+            outs.append((None, "propagated"))
+        return outs, fired
     box = {}
 
     def other():
@@ -198,6 +220,10 @@ def tasks(tier):
     for gi, g in enumerate(alphabet(tier)):
         for vi in range(len(g)):
             out.append(("abort", gi, vi, list(range(len(g)))))
+            if vi == 0 or tier == "thorough":
+                out.append(("raise", gi, vi, list(range(len(g)))))
+            if vi == 0 and tier == "thorough":
+                out.append(("raise_mem", gi, vi, list(range(len(g)))))
             if tier != "thorough" and vi >= 2:
                 continue
             # two threads doing the same thing is the canonical race (equal
@@ -220,7 +246,7 @@ def explore_victim(victim, vbase, observed_cfgs, baselines, cap=None,
     observed configurations)."""
     vlen = len(vbase["stream"])
     olens = [len(b["stream"]) for b in baselines]
-    if mode == "preempt":
+    if mode == "preempt" or mode.startswith("raise"):
         baselines = list(baselines) + [vbase]
     P = count_points(victim, vlen)
     ks = range(P)
@@ -239,7 +265,7 @@ def explore_victim(victim, vbase, observed_cfgs, baselines, cap=None,
         for j, ((stream, err), b) in enumerate(zip(outs, baselines)):
             execs += 1
             if stream is None:
-                if aborted:
+                if aborted and mode == "preempt":
                     bad.append((k, j, f"did not run: {err}"))
                 continue
             if stream != b["stream"] or err != b["error"]:
@@ -266,9 +292,9 @@ def once(victim_json, k, observed_json, mode="abort"):
     vb, base = bl[0], bl[1:]
     outs, _ab = one(victim, len(vb["stream"]), k, obs,
                     [len(b["stream"]) for b in base], mode)
-    if mode == "preempt":
+    if mode == "preempt" or mode.startswith("raise"):
         base = base + [vb]
-    names = [repr(o) for o in obs] + [repr(victim) + " (the preempted one)"]
+    names = [repr(o) for o in obs] + [repr(victim) + " (the disturbed one)"]
     for (stream, err), b, nm in zip(outs, base, names):
         if stream is None:
             continue
